@@ -373,6 +373,7 @@ def job_csv(job, tmp):
         dt = mk_date(t.get('date'))
         r = {'state': state_of(tr), 'norm': norm_result(t, rules, transforms, ds)}
         du = tr['description'].upper()
+        r['du'] = du
         direct, search, exprs, dyns = [], [], [], []
         for rule in rules:
             pattern, merchant, category, subcategory, parsed, source, tags = rule
